@@ -901,9 +901,7 @@ where
     }
     kani::cover!(spec.ok && spec.len2 == S2);
     kani::cover!(!spec.ok && spec.err_kind == K_TOO_LONG);
-    if NORM {
-        kani::cover!(spec.ok && spec.len2 < n - 3 && n == T);
-    }
+    kani::cover!(!NORM || (spec.ok && spec.len2 < n - 3 && n == T));
 }
 
 #[kani::proof]
